@@ -49,14 +49,16 @@ void sym_inputs(void)
 
 char auto_qmail[] = "/var/qmail";
 
-/* ---- observed */
+/* ---- observed (everything is compared on the fly against the reference parse R, which
+ * is computed from the input before the daemon runs: the _exit stub is inlined at several
+ * hundred unrolled call sites and must stay a handful of scalar comparisons) */
 static unsigned int inpos;
 static int n_open, n_close, n_from, n_received, order_bad;
 static int g_flagerr, daemon_fail_calls;
 static unsigned int nwr;
-static unsigned char mbuf[N + 1]; static unsigned int mlen;
-static char fbuf[AMAX + 1]; static unsigned int flen;
-static char tbuf[MAXR][AMAX + 1]; static unsigned int tlen[MAXR]; static unsigned int n_to;
+static unsigned int mlen; static int msg_bad;
+static int from_bad, to_bad; static unsigned int n_to;
+static int bad_addr;
 static char *close_result = "?";
 /* reply stream: netstring recogniser */
 static int rs, rbad, rfirst; static unsigned long rval; static unsigned int rdigits, rleft, nrep; static char rclass[2];
@@ -173,7 +175,7 @@ void sig_alarmcatch(void (*f)()) {}
 unsigned int vf_alarm(unsigned int s) { return 0; }
 int vf_chdir(const char *p) { if (chdir_fails) return -1; return 0; }
 char *env_get(char *name) { return (char *) 0; }
-time_t vf_time(time_t *t) { return 1000000000; }
+time_t vf_time(time_t *t) { return 7; }   /* small: fmt_ulong stays inside its unwinding bound */
 
 static void wr(void) { if (nwr++ == wfail_at) g_flagerr = 1; }   /* a write to qmail-queue may fail */
 
@@ -184,7 +186,7 @@ int qmail_open(struct qmail *q)
   if (open_fails) return -1;
   return 0;
 }
-unsigned long qmail_qp(struct qmail *q) { return 4242; }
+unsigned long qmail_qp(struct qmail *q) { return 42; }
 void qmail_fail(struct qmail *q) { CHECK(n_open == 1 && !n_close, "qmail_fail on an open connection"); g_flagerr = 1; ++daemon_fail_calls; }
 void qmail_put(struct qmail *q, char *s, unsigned int len)
 {
@@ -194,31 +196,34 @@ void qmail_put(struct qmail *q, char *s, unsigned int len)
   wr();
   for (i = 0; i < N + 1; ++i) {
     if (i >= len) break;
-    if (mlen < sizeof mbuf) mbuf[mlen] = (unsigned char) s[i];
+    if (R.status != 2 || mlen >= R.mlen || R.moff + mlen >= N || (unsigned char) s[i] != in[R.moff + mlen]) msg_bad = 1;
     ++mlen;
   }
   CHECK(len <= N, "harness sizing");
 }
-static unsigned int copy_addr(char *dst, const char *s)
+/* is the C string s exactly in[off..off+len) ?  (never reads s past its NUL) */
+static int same_addr(const char *s, unsigned int off, unsigned int len)
 {
   unsigned int i;
-  for (i = 0; i < AMAX; ++i) { dst[i] = s[i]; if (!s[i]) return i; }
-  dst[AMAX] = 0;
-  return AMAX + 1;                             /* longer than anything in the request */
+  for (i = 0; i <= N; ++i) {
+    if (i == len) return s[i] == 0;
+    if (off + i >= N || (unsigned char) s[i] != in[off + i] || s[i] == 0) return 0;
+  }
+  return 0;
 }
 void qmail_from(struct qmail *q, char *s)
 {
   CHECK(n_open == 1 && !open_fails && !n_close, "qmail_from on an open connection");
   if (n_from || n_to) order_bad = 1;
   ++n_from; wr();
-  flen = copy_addr(fbuf, s);
+  if (R.status != 2 || !same_addr(s, R.soff, R.slen)) from_bad = 1;
 }
 void qmail_to(struct qmail *q, char *s)
 {
   CHECK(n_open == 1 && !open_fails && !n_close, "qmail_to on an open connection");
   if (!n_from) order_bad = 1;
   wr();
-  if (n_to < MAXR) tlen[n_to] = copy_addr(tbuf[n_to], s);
+  if (R.status != 2 || n_to >= R.nr || n_to >= MAXR || !same_addr(s, R.roff[n_to < MAXR ? n_to : 0], R.rlen[n_to < MAXR ? n_to : 0])) to_bad = 1;
   ++n_to;
 }
 char *qmail_close(struct qmail *q)
@@ -242,59 +247,35 @@ void vf__exit(int status)
 {
   int queued = n_close == 1 && close_result[0] == 0;
   int saidK = nrep >= 1 && rclass[0] == 'K';
-  unsigned int i, j;
-  ref_parse();
+  int res_trouble = R.huge || open_fails || chdir_fails;
 
   /* whatever the input: K iff the queue took the message, at most one reply */
-  CHECK(status == 0 || status == 100 || status == 111, "exit status is 0, 100 or 111");
-  CHECK(n_open <= 1 && n_close <= 1, "one queue connection per request");
-  CHECK(saidK == queued, "C07(2): K is sent iff the queue connection was closed successfully");
-  CHECK(nrep <= 1, "QMQP: at most one reply");
-  CHECK(status != 111 || R.huge || open_fails || chdir_fails, "C07(2): exit 111 only for resource trouble");
-  if (nrep) CHECK(flushed == outcount, "reply is flushed before exit");
-
-  if (R.status == 0) {
-    CHECK(!queued, "C07(2): client gone before the request was complete => nothing queued");
-    if (status == 0 && n_open == 1 && inpos == N) WITNESS("disconnect_after_open");
-  } else if (R.status == 1) {
-    CHECK(!queued, "C07(2): malformed framing => nothing queued");
-    CHECK(nrep == 0, "C07(2): malformed framing => no reply is owed, certainly not K");
-    CHECK(status == 100 || (status == 111 && (R.huge || open_fails || chdir_fails)), "C07(2): malformed framing => exit 100");
-    if (n_open == 1 && !open_fails) WITNESS("malformed_after_open");
-  } else if (open_fails || chdir_fails) {
-    CHECK(status == 111 && nrep == 0 && !queued, "C07(2): no queue connection => exit 111, nothing said");
-    WITNESS("resources");
-  } else {
-    int bad_addr = has_nul(R.soff, R.slen) || R.slen >= 1000;
-    for (i = 0; i < MAXR; ++i) { if (i >= R.nr) break; if (has_nul(R.roff[i], R.rlen[i]) || R.rlen[i] >= 1000) bad_addr = 1; }
-    CHECK(status == 0 && nrep == 1 && !rbad && rs == 0, "C07(2): a well-formed request gets exactly one well-formed reply");
-    CHECK(n_open == 1 && n_received == 1 && n_close == 1 && !order_bad, "open, Received, message, envelope, close");
-    CHECK(inpos == R.end, "exactly the request is consumed");
-    if (bad_addr) {
-      CHECK(!queued && rclass[0] == 'D', "C07(2): NUL in an address => permanent refusal, nothing queued");
-      WITNESS("nul_in_address");
-    } else {
-      CHECK(daemon_fail_calls == 0, "C07(2): an acceptable request is not failed by the daemon");
-      CHECK(rclass[0] == (queued ? 'K' : close_result[0]), "C07(2): reply class is the queue's verdict");
-      if (!queued && rclass[0] == 'D') WITNESS("queue_permanent");
-      if (!queued && rclass[0] == 'Z') WITNESS("queue_temporary");
-    }
-    if (queued) {
-      CHECK(mlen == R.mlen, "C07(2): queued message = Received + exactly the message bytes");
-      for (i = 0; i < N; ++i) { if (i >= R.mlen) break; CHECK(mbuf[i] == in[R.moff + i], "C07(2): message bytes unchanged and in order"); }
-      CHECK(n_from == 1 && flen == R.slen, "C07(2): envelope sender is the request's sender");
-      for (i = 0; i < N; ++i) { if (i >= R.slen) break; CHECK((unsigned char) fbuf[i] == in[R.soff + i], "C07(2): sender bytes unchanged"); }
-      CHECK(n_to == R.nr, "C07(2): exactly the request's recipients, in order");
-      for (j = 0; j < MAXR; ++j) {
-        if (j >= R.nr) break;
-        CHECK(tlen[j] == R.rlen[j], "C07(2): recipient length");
-        for (i = 0; i < N; ++i) { if (i >= R.rlen[j]) break; CHECK((unsigned char) tbuf[j][i] == in[R.roff[j] + i], "C07(2): recipient bytes unchanged"); }
-      }
-      if (R.nr >= 1) WITNESS("accepted_K_with_recipient");
-      WITNESS("accepted_K");
-    }
+  CHECK(status == 0 || status == 100 || (status == 111 && res_trouble), "C07(2): exit status is 0, 100, or 111 for resource trouble");
+  CHECK(saidK == queued && nrep <= 1 && flushed == outcount, "C07(2): K is sent (and flushed) iff the queue connection was closed successfully");
+  CHECK(R.status == 2 || !queued, "C07(2): truncated or malformed request => nothing queued");
+  CHECK(R.status != 1 || (nrep == 0 && status != 0), "C07(2): complete malformed frame => exit 100, no reply");
+  if (R.status == 2 && !res_trouble) {
+    CHECK(status == 0 && nrep == 1 && !rbad && rs == 0 && inpos == R.end
+          && n_open == 1 && n_received == 1 && n_close == 1 && !order_bad,
+          "C07(2): a well-formed request is consumed exactly, handed over in order, and gets one well-formed reply");
+    CHECK(bad_addr ? (!queued && rclass[0] == 'D') : (daemon_fail_calls == 0 && rclass[0] == (queued ? 'K' : close_result[0])),
+          "C07(2): NUL in an address => D, nothing queued; otherwise the reply class is the queue's verdict");
+    CHECK(!queued || (!msg_bad && mlen == R.mlen && n_from == 1 && !from_bad && !to_bad && n_to == R.nr),
+          "C07(2): K => queue got Received + exactly the message, the sender and the recipients in order");
   }
+  if (R.status == 2 && res_trouble && !R.huge)
+    CHECK(status == 111 && nrep == 0 && !queued, "C07(2): no queue connection => exit 111, nothing said");
+#if defined(WITNESS_INLINE) || defined(WITNESS_TWIN)
+  if (R.status == 0 && status == 0 && n_open == 1 && inpos == N) WITNESS("disconnect_after_open");
+  if (R.status == 1 && n_open == 1 && !open_fails) WITNESS("malformed_after_open");
+  if (R.status == 2 && res_trouble) WITNESS("resources");
+  if (R.status == 2 && !res_trouble && bad_addr) WITNESS("nul_in_address");
+  if (R.status == 2 && !res_trouble && !queued && rclass[0] == 'D' && !bad_addr) WITNESS("queue_permanent");
+  if (R.status == 2 && !res_trouble && !queued && rclass[0] == 'Z') WITNESS("queue_temporary");
+  if (queued && R.nr >= 1) WITNESS("accepted_K_with_recipient");
+  if (queued) WITNESS("accepted_K");
   WITNESS("exit");
+#endif
   PATH_END();
 #ifdef VERIF_CBMC
   __CPROVER_assume(0);
@@ -303,11 +284,17 @@ void vf__exit(int status)
 
 void vmain(void)
 {
+  unsigned int i;
   sym_inputs();
   ASSUME(qstatus <= 2 && open_fails <= 1 && chdir_fails <= 1);
 #ifdef TEMPLATE
   template_fill();
 #endif
+  ref_parse();
+  if (R.status == 2) {
+    bad_addr = has_nul(R.soff, R.slen) || R.slen >= 1000;
+    for (i = 0; i < MAXR; ++i) { if (i >= R.nr) break; if (has_nul(R.roff[i], R.rlen[i]) || R.rlen[i] >= 1000) bad_addr = 1; }
+  }
   qmqpd_main();
   CHECK(0, "qmail-qmqpd leaves only through _exit");
 }
